@@ -173,6 +173,16 @@ impl SymmetricState {
         }
     }
 
+    /// Verification hook: append the private symmetric state to `out`.
+    #[cfg(feature = "verif-hooks")]
+    pub(crate) fn verif_dump(&self, out: &mut crate::utils::VerifDump) {
+        let hash_len = self.hasher.hash_len();
+        out.extend_from_slice(&self.inner.h[..hash_len]);
+        out.extend_from_slice(&self.inner.ck[..hash_len]);
+        out.push(u8::from(self.inner.has_key));
+        out.extend_from_slice(&self.cipherstate.nonce().to_le_bytes());
+    }
+
     pub fn handshake_hash(&self) -> &[u8] {
         let hash_len = self.hasher.hash_len();
         &self.inner.h[..hash_len]
